@@ -14,6 +14,8 @@ use std::collections::HashMap;
 use std::str::FromStr;
 use std::sync::Arc;
 
+static WRITES: std::sync::atomic::AtomicI32 = std::sync::atomic::AtomicI32::new(0);
+
 thread_local! {
     pub static WORLD: World = World::new();
 }
@@ -179,7 +181,6 @@ struct Run<'a> {
     slots: Vec<Slot>,
     chans: Vec<u32>,
     nslots: usize,
-    writes: i32,
     forged: NodeId,
 }
 
@@ -296,8 +297,8 @@ impl<'a> Run<'a> {
             }
             "Service" => {
                 let token = self.token(t);
-                self.writes += 1;
-                let n = self.writes;
+                // a value the variable never had
+                let n = WRITES.fetch_add(1, std::sync::atomic::Ordering::SeqCst) + 1;
                 let var = self.w.var.clone();
                 let l = &mut self.links[ci];
                 l.c.token = token;
@@ -388,7 +389,7 @@ pub fn run_case(case: &Value, out: &mut Obs) {
             }
         }
         let forged = NodeId::new(0, ByteString::from(mint::stream("forged-token", 32, |_| true)));
-        let mut r = Run { w, links, slots: Vec::new(), chans: Vec::new(), nslots, writes: 0, forged };
+        let mut r = Run { w, links, slots: Vec::new(), chans: Vec::new(), nslots, forged };
         for i in 0..r.links.len() {
             let id = r.links[i].chan_id();
             r.see(id);
